@@ -370,6 +370,9 @@ func LessThan(left, right value.Value) (value.Value, error) {
 				)
 			}
 			rv := value.Unwrap[*value.Float](right)
+			if rv.IsNAN {
+				return &value.Boolean{Value: false}, nil
+			}
 
 			return &value.Boolean{
 				Value: float64(lv.Value/time.Second) < rv.Value,
